@@ -6,12 +6,13 @@ import arrays
 from arrays import *
 
 COQ_PROPS = 'props/C16.v'
-PARTIAL = ('proved for all shapes/ranks/histories over abstract elements: broadcasting index map, lifting of every binary ufunc '
-           '(incl. scalar-array, comparisons) after any history, unary/view/copy/result/zip lifting on objects holding no '
-           'remembered shape, history independence of all binary ufuncs; REFUTED (witness replayed): history independence of '
-           'unary ops/views, np.arctan2 lifting, zip broadcasting, pickle. Not modelled: structured arrays, slicing/views '
-           'sharing memory, matmul/dot, reductions, out= kwargs, core.* wrappers translating AttributeError; element-level '
-           'scalar semantics is the scalar-operation table (C01-C06 cover it)')
+PARTIAL = ('proved for all shapes/ranks/histories over abstract elements, for the code as repaired by the four C16 fixes: '
+           'broadcasting index map; lifting of every binary ufunc (np.arctan2 in both operand orders and under broadcasting, '
+           'comparisons, scalar-array); no object ever holds a remembered broadcast shape; unary ops / views / copy / result with '
+           'the operand\'s own shape after any history; full history independence of every operation; pickle round trip. '
+           'REFUTED (witness replayed, known finding): sensitivity / u_component / core.atan2 do not broadcast. Not modelled: '
+           'structured arrays, slicing/views sharing memory, matmul/dot, reductions, out= kwargs, core.* wrappers translating '
+           'AttributeError; element-level scalar semantics is the scalar-operation table (C01-C06 cover it)')
 ASSUMPTIONS = ['numpy selects the leftmost UncertainArray input as the __array_ufunc__ dispatcher (validated by correspondence)',
                'np.broadcast / np.empty / flat iteration behave as modelled (validated by direct broadcast cases and by correspondence)']
 TRUSTED = ['element fingerprints (type, value/uncertainty bits, dof, label, uid of elementary numbers | symbolic term) identify elements',
@@ -35,7 +36,7 @@ def bcast_terms(rng, n):
 def correspondence(rng, tier):
     n = 400 if tier == 'quick' else 15000
     progs = []; terms = []; dist = {'mode': {}, 'ops': {}, 'rank': {}, 'outcome': {}}
-    notes = {'broadcast': 0, 'stale_read': 0, 'exn': 0, 'steps': 0, 'cells': 0}
+    notes = {'broadcast': 0, 'stale_read': 0, 'read_after_broadcast': 0, 'exn': 0, 'steps': 0, 'cells': 0}
     ambiguous = 0; distinct = set()
     while len(progs) < n:
         mode = 'sym' if rng.random() < 0.5 else 'real'
@@ -52,7 +53,7 @@ def correspondence(rng, tier):
         for x, _ in impl.expected:
             dist['outcome'][x[0] if x[0] != 'XExn' else x[1]] = dist['outcome'].get(x[0] if x[0] != 'XExn' else x[1], 0) + 1
         for k in notes: notes[k] += impl.notes[k]
-        if impl.notes['broadcast'] and impl.notes['stale_read']:
+        if impl.notes['broadcast'] and impl.notes['read_after_broadcast']:
             distinct.add(json.dumps([[o['op'], o.get('f')] for o in prog['ops']] + [o['shape'] for o in prog['ops'] if o['op'] == 'new']))
     bterms, bmeta = bcast_terms(rng, 200 if tier == 'quick' else 4000)
     values, errors = coq_eval_cases('C16', HEADER, terms + bterms, per_file=40 if tier == 'quick' else 200)
@@ -71,7 +72,7 @@ def correspondence(rng, tier):
             'rule': 'random histories of 6-14 operations on 2-4 shared array objects (rank 0-3, dims 0-4, <= 24 elements, '
                     'size-1 axes, incompatible shapes, scalars, plain ndarrays/lists); half with symbolic tracer elements, '
                     'half with ureal/ucomplex/float/int/complex elements; non-trivial = has a broadcasting binary op and a '
-                    'later read of an object holding a remembered broadcast shape; plus direct NumPy-vs-model broadcasting cases',
+                    'later unary op / view / copy / result / sensitivity on the object that dispatched it; plus direct NumPy-vs-model broadcasting cases',
             'samples': progs[:2]}
 
 
@@ -130,7 +131,7 @@ def check_program(prog, ctx=16, known_hits=None):
     returns None or {'step','expected','observed','known_class'} for the first deviating step"""
     impl = arrays.Impl(ctx); impl.spec_ids = {}
     impl.scalars = [make_elem(s) for s in prog['scalars']]
-    labels = []; last_bcast = {}            # heap index -> did its last dispatched binary ufunc broadcast?
+    labels = []
     for step, op in enumerate(prog['ops']):
         heap = impl.heap
         before = [bstate_of(o) for o in heap]
@@ -149,28 +150,15 @@ def check_program(prog, ctx=16, known_hits=None):
             got = ('lbl', fingerprint(impl.heap[op['i']].label))
         # bookkeeping of labels and dispatch
         if len(impl.heap) > n0:
-            labels.append(op.get('label') if op['op'] == 'new' else labels[op['i']] if op['op'] in ('copy', 'pickle') else None)
+            # copy() keeps the label; results, views and unpickled arrays have none
+            labels.append(op.get('label') if op['op'] == 'new' else labels[op['i']] if op['op'] == 'copy' else None)
         known = None
-        if op['op'] == 'bin':
-            ku = [o[1] for o in (op['x'], op['y']) if o[0] == 'A' and kind_of(heap[o[1]]) == 'KU']
-            disp = ku[0] if ku else None
-            sx = np.shape(heap[op['x'][1]]) if op['x'][0] == 'A' else None
-            sy = np.shape(heap[op['y'][1]]) if op['y'][0] == 'A' else None
-            differ = sx is not None and sy is not None and tuple(sx) != tuple(sy)
-            if disp is not None: last_bcast[disp] = differ
-            if op['f'] == F_ATAN2:
-                if differ: known = 'arctan2-broadcast'
-                elif not (op['x'][0] == 'A' and op['x'][1] == disp): known = 'arctan2-second'
-        elif op['op'] in ('un', 'unb', 'copy', 'result', 'zip', 'label'):
+        # the only listed finding left: sensitivity / u_component / core.atan2 with a second operand of another shape
+        if op['op'] == 'zip':
             i = op['i']
-            if before[i] == 'BUnset': known = 'pickle'
-            elif op['op'] == 'label' and got[0] == 'exn': known = 'pickle' if not hasattr(heap[i], '_label') else None
-            elif before[i] != 'BNone' and last_bcast.get(i): known = 'stale-shape'
-            if op['op'] == 'copy' and not hasattr(heap[i], '_label'): known = 'pickle'
-            if known is None and op['op'] == 'zip':
-                sy = np.shape(heap[op['y'][1]]) if op['y'][0] == 'A' else ()
-                if tuple(sy) != tuple(np.shape(heap[i])): known = 'zip-no-broadcast'
-                if op['f'] == F_ATAN2 and op['y'][0] != 'A': known = 'zip-no-broadcast'
+            sy = np.shape(heap[op['y'][1]]) if op['y'][0] == 'A' else ()
+            if tuple(sy) != tuple(np.shape(heap[i])): known = 'zip-no-broadcast'
+            if op['f'] == F_ATAN2 and op['y'][0] != 'A': known = 'zip-no-broadcast'
         if want is not None and want != got and known is not None:
             if known_hits is not None: known_hits[known] = known_hits.get(known, 0) + 1
             continue                     # a listed finding: later steps are still checked (from actual contents)
@@ -267,12 +255,10 @@ def kf_C16_pickle():
     import pickle
     new_context(16)
     g = pickle.loads(pickle.dumps(_mk((2,), 1.0)))
-    try:
-        g.x
-    except AttributeError as ex:
-        first = str(ex)
-    else:
-        return False, 'view works'
-    g + g
-    ok_after = g.x.shape == (2,)
-    return ok_after, 'unpickled.x -> AttributeError (%s); after g+g the view works: %r' % (first, ok_after)
+    bad = []
+    for name, f in (('x', lambda: g.x), ('label', lambda: g.label), ('copy', lambda: g.copy())):
+        try:
+            f()
+        except AttributeError as ex:
+            bad.append('%s -> AttributeError (%s)' % (name, ex))
+    return bool(bad), 'unpickled array: ' + ('; '.join(bad) if bad else 'views, label and copy work')
